@@ -15,7 +15,7 @@ only = sys.argv[sys.argv.index("--only") + 1] if "--only" in sys.argv else None
 muts = [json.loads(l) for l in open(src)]
 if only:
     muts = [m for m in muts if only in m["file"] or only in m["func"]]
-base = "/tmp/mutcov"
+base = f"/tmp/mutcov{os.getpid()}"
 shutil.rmtree(base, ignore_errors=True)
 os.makedirs(base)
 slots = queue.Queue()
